@@ -48,10 +48,6 @@ class E2EState:
         self.limbo = []  # (channel name, Msg)
         self.budget = 0
         self.fin = {"S": [], "D": []}
-        self.nfault = {"S": 0, "D": 0}
-        self.nexc = {"S": 0, "D": 0}
-        self.flipped = 0
-        self.rejected = 0
         self.src_data = b""
 
 
@@ -87,6 +83,12 @@ class E2EWorld(World):
         ok = st.S.h.put_request(core.put_request(c))
         assert ok
         return st
+
+    def consts(self, st):
+        out = core.entity_consts(st.S) + core.entity_consts(st.D)
+        if st.S.h._put_req is not None:
+            out.append(st.S.h._put_req)
+        return out
 
     # ---- events ------------------------------------------------------------------------------
     def enabled(self, st):
@@ -148,15 +150,12 @@ class E2EWorld(World):
             (st.sd if who == "S" else st.ds).extend(msgs)
 
     def _entity_obs(self, st, who, obs, msgs, out):
-        if obs.get("exc"):
-            st.nexc[who] = sat(st.nexc[who] + 1)
-        for r in obs.get("ind", []):
-            if r["ind"] == "finished":
-                lst = st.fin[who]
-                if len(lst) < 3:
-                    lst.append((r["cond"], r["deliv"], r["fstat"]))
-        if obs.get("faults"):
-            st.nfault[who] = sat(st.nfault[who] + len(obs["faults"]))
+        if self.link != "chaos":  # completion monitor (saturating); chaos worlds make no progress claims
+            for r in obs.get("ind", []):
+                if r["ind"] == "finished":
+                    lst = st.fin[who]
+                    if len(lst) < 3:
+                        lst.append((r["cond"], r["deliv"], r["fstat"]))
         if msgs:
             obs["out"] = [m.d for m in msgs]
             # the destination file at the moment a Finished PDU is emitted
@@ -179,7 +178,6 @@ class E2EWorld(World):
             data = bytearray(pdu.file_data)
             data[0] ^= 0x01
             pdu._params.file_data = bytes(data)
-            st.flipped = sat(st.flipped + 1, 2)
         obs, msgs = ent.step(pdu)
         self._entity_obs(st, who, obs, msgs, out)
         self._send(st, who, msgs)
@@ -231,7 +229,6 @@ class E2EWorld(World):
             self._deliver(st, "D", m, out, flip=True)
         elif k == "reject":
             st.D.user.vfs.reject_next = True
-            st.rejected = sat(st.rejected + 1, 2)
             if self.link == "k":
                 st.budget -= 1
             out["fault"] = "reject next write"
@@ -255,7 +252,6 @@ class E2EWorld(World):
             "S": st.S.h.states.step.name, "D": st.D.h.states.step.name,
             "finS": st.fin["S"], "finD": st.fin["D"],
             "file": "absent" if data is None else ("same" if data == st.src_data else "differs"),
-            "faults": [st.nfault["S"], st.nfault["D"]],
         }
 
     def success_goal(self, st) -> list:
